@@ -269,6 +269,8 @@ def gen_synth(rng, lf_any_leader=False):
         else:
             space = []
         time = [r for r in perm if r not in space]
+        if rng.random() < 0.2:
+            rng.shuffle(time)
         st[o] = {"space": space, "time": time}
         if rng.random() < 0.2:
             st[o]["opt"] = "slip"
@@ -383,6 +385,9 @@ def gen_synth(rng, lf_any_leader=False):
                 need = [r for r in lo[o] if r in ro[t]]
                 if need != ro[t]:
                     bl.append({"component": "Mrg", "bindings": [{"tensor": t, "init-ranks": list(ro[t]), "final-ranks": need}]})
+        if rng.random() < 0.2:
+            cfg_rec = bl.pop(0)
+            bl.insert(rng.randrange(len(bl) + 1), cfg_rec)
         bindings[o] = bl
         sp = st[o]["space"]
         prefix = lo[o][:lo[o].index(sp[0])] if sp else list(lo[o])
@@ -532,6 +537,9 @@ def gen_fusion_history(rng):
         if rng.random() < 0.2:
             rng.shuffle(space)
         time = [r for r in perm if r not in space]
+        if rng.random() < 0.3:
+            # the time list only defines the time-stamp tuple of the display: any order is legal
+            rng.shuffle(time)
         lo[o] = list(perm)
         st[o] = {"space": space, "time": time}
         cfg = "cfgA" if rng.random() < 0.75 else "cfgB"
@@ -559,6 +567,10 @@ def gen_fusion_history(rng):
         if rng.random() < 0.15:
             # a component that is named but bound to nothing must not count as "bound"
             bl.append({"component": "Mul1", "bindings": []}) if not any(x.get("component") == "Mul1" for x in bl) else None
+        if rng.random() < 0.3:
+            # the binding list is an unordered sequence of records: the config record need not come first
+            cfg_rec = bl.pop(0)
+            bl.insert(rng.randrange(len(bl) + 1), cfg_rec)
         bindings[o] = bl
     arch, ainfo = _arch(rng)
     spec = {"decl": decl, "exprs": exprs, "rank_order": None, "partitioning": None, "loop_order": lo,
